@@ -191,11 +191,48 @@ impl IncompleteTransfer {
 }
 
 impl IncompleteTransfer {
-    /// resumption (state Received{section-number, section-offset} on a transfer): trims the buffer to the point the sender resumes from. ASSUMED (function not under contract): it only trims
+    /// resumption (state Received{section-number, section-offset} on a transfer): trims the buffer to the point the sender resumes from. The function itself is under contract below
+    /// (`keep_buffer_real`: it only trims, chunk by chunk, and leaves everything alone when the position is not inside the buffer); what this stand-in adds for the callers and what stays
+    /// ASSUMED is that the section counters still fit the trimmed buffer (`wf`): the code does not re-base them
     #[verifier::external_body]
     pub fn keep_buffer_till_section_number_and_offset(&mut self, section_number: u32, section_offset: u64)
         ensures final(self).wf(), concat(final(self).buffer@).len() <= concat(old(self).buffer@).len(), final(self).performative == old(self).performative,
     { unimplemented!() }
+}
+/// where (as an index into the concatenated buffer) the octet with this section number / offset lies, if it does: `position_of_section_number_and_offset` walks three byte iterators zipped together
+/// (iterator adapters: outside the subset); uninterpreted here -- only that an index it reports lies inside the buffer is used
+pub uninterp spec fn pos_of(b: Seq<Payload>, n: u32, off: u64) -> Option<usize>;
+pub open spec fn is_prefix(a: Seq<u8>, b: Seq<u8>) -> bool { a.len() <= b.len() && a =~= b.subrange(0, a.len() as int) }
+impl Bytes {
+    /// bytes::Bytes::split_off: self keeps [0, at), the rest is returned; panics if at > len
+    #[verifier::external_body]
+    pub fn split_off(&mut self, at: usize) -> (r: Bytes)
+        requires at <= old(self)@.len(),       // [C15.state.split-inside-the-chunk] [C10.state.split-inside-the-chunk] whatever position the peer names, a chunk is only ever cut inside its own length: no panic
+        ensures final(self)@ =~= old(self)@.subrange(0, at as int), r@ =~= old(self)@.skip(at as int),
+    { unimplemented!() }
+}
+impl IncompleteTransfer {
+    #[verifier::external_body]
+    fn position_of_section_number_and_offset(&self, section_number: u32, section_offset: u64) -> (r: Option<usize>)
+        ensures r == pos_of(self.buffer@, section_number, section_offset),
+    { unimplemented!() }
+
+//@@ fn file=fe2o3-amqp/src/link/incomplete_transfer.rs impl=`impl IncompleteTransfer` name=keep_buffer_till_section_number_and_offset as=keep_buffer_real id=IncompleteTransfer::keep_buffer_till_section_number_and_offset
+//@@ shape loops=while
+//@@ entry
+    let ghost b0 = self.buffer@;
+//@@ loop 0
+            invariant __im0 <= self.buffer@.len(), self.buffer@.len() == b0.len(),
+                forall|j: int| 0 <= j < b0.len() ==> is_prefix(#[trigger] self.buffer@[j]@, b0[j]@),
+                self.performative == old(self).performative, self.section_number == old(self).section_number, self.section_offset == old(self).section_offset,
+            decreases self.buffer@.len() - __im0,
+//@@ spec
+    ensures
+        pos_of(old(self).buffer@, section_number, section_offset) is None ==> final(self).buffer@ == old(self).buffer@,       // [C10.state.position-outside-the-buffer-keeps-the-buffer] a continuation frame whose `received` state names a position that is not inside what has been buffered (e.g. one that merely restates how far the delivery has got) discards NOTHING: the frames buffered so far are still the delivery's
+        final(self).buffer@.len() == old(self).buffer@.len(),
+        forall|j: int| 0 <= j < old(self).buffer@.len() ==> is_prefix(#[trigger] final(self).buffer@[j]@, old(self).buffer@[j]@),       // [C10.state.only-trims] whatever the position, every buffered frame is kept in place and at most cut short: nothing is reordered, replaced or invented
+        final(self).performative == old(self).performative, final(self).section_number == old(self).section_number, final(self).section_offset == old(self).section_offset,
+//@@ end
 }
 // ---- the link endpoint as seen by ReceiverInner ----
 pub struct Delivery { pub performative: Transfer, pub bytes: Ghost<Seq<u8>>, pub section_number: u32, pub section_offset: u64 }
